@@ -9,6 +9,9 @@ from .engine import jsonable
 
 ROOT = os.path.dirname(os.path.dirname(os.path.abspath(__file__)))
 KNOWN = os.path.join(ROOT, "KNOWN_FINDINGS")
+# evidence and replay artefacts go to /verif; MCX_OUT redirects them (only used by the mutant campaign, which runs many
+# checks in parallel against scratch copies of the library and must not touch the committed evidence)
+OUT = os.environ.get("MCX_OUT") or ROOT
 
 
 def load_known():
@@ -125,8 +128,8 @@ class Report:
             cov["known_findings_hit"] = [dict(property=k[0], sig=json.loads(k[1]), text=k[2], count=n) for k, n in knownhits.items()]
         ev = dict(property_id=self.prop, tier=self.tier, seed=self.seed, level=self.level, coverage=jsonable(cov),
                   assumptions=self.assumptions, wall_s=round(wall, 2), violations=len(fresh) + max(0, self.nviol - len(self.violations)))
-        os.makedirs(os.path.join(ROOT, "evidence"), exist_ok=True)
-        with open(os.path.join(ROOT, "evidence", f"{self.prop}.json"), "w") as f:
+        os.makedirs(os.path.join(OUT, "evidence"), exist_ok=True)
+        with open(os.path.join(OUT, "evidence", f"{self.prop}.json"), "w") as f:
             json.dump(ev, f, indent=1, sort_keys=True)
             f.write("\n")
         for (kp, ksig, ktext), n in knownhits.items():
@@ -145,7 +148,7 @@ class Report:
                    extra=jsonable(v.get("extra")))
         blob = json.dumps(doc, sort_keys=True, indent=1)
         sha = hashlib.sha256(blob.encode()).hexdigest()[:12]
-        d = os.path.join(ROOT, "replays", self.prop)
+        d = os.path.join(OUT, "replays", self.prop)
         os.makedirs(d, exist_ok=True)
         path = os.path.join(d, f"{sha}.json")
         with open(path, "w") as f:
